@@ -282,6 +282,32 @@ func runScenario(run *evid.Run, reg ociregistry.Interface, repo string, s *scena
 		}
 		return
 	}
+	if strings.HasPrefix(s.Stack, "http") && (len(s.Content)+s.Hint+len(s.Parts))%3 == 0 {
+		// a slip on the way: the commit first names something that is not a digest at all, which the server
+		// refuses before it looks at the upload. The caller then does what the pattern says - closes the
+		// writer (nil: everything written is with the registry), resumes at the size the writer reports,
+		// and commits with the matching digest.
+		_, e := w.Commit("sha256:nothex")
+		log("Commit(\"sha256:nothex\")", e)
+		if e == nil {
+			bad("wrong-digest-committed", "Commit with a string that is no digest succeeded")
+			return
+		}
+		run.Count("commits_refused_before_the_upload_was_looked_at", 1)
+		if cl := w.Close(); cl == nil {
+			log("Close after the refused commit", cl)
+			sz, id := w.Size(), w.ID()
+			w2, rerr := reg.PushBlobChunkedResume(bg, repo, id, sz, s.Hint)
+			log(fmt.Sprintf("Resume(offset=Size()=%d)", sz), rerr)
+			if rerr != nil {
+				bad("resume-failed/after-refused-commit", fmt.Sprintf("Close returned nil and Size() is %d, but resuming there failed: %v", sz, rerr))
+				return
+			}
+			w = w2
+		} else {
+			log("Close after the refused commit", cl)
+		}
+	}
 	desc, cerr := w.Commit(ociregistry.Digest(trueDigest))
 	log("Commit(true digest)", cerr)
 	if cerr != nil {
